@@ -658,6 +658,17 @@ func (p *pkg) laterUses(d *ast.FuncDecl, put poolPut) (variable string, n int) {
 		return
 	}
 	set := derived(d, id.Obj)
+	// the same object also handed back by a DEFERRED Put of this function: it runs after this one (put twice)
+	ast.Inspect(d.Body, func(x ast.Node) bool {
+		if df, ok := x.(*ast.DeferStmt); ok && df.Call != put.call {
+			if sel, ok := df.Call.Fun.(*ast.SelectorExpr); ok && sel.Sel.Name == "Put" && len(df.Call.Args) == 1 {
+				if a, ok := unparen(df.Call.Args[0]).(*ast.Ident); ok && a.Obj == id.Obj {
+					n++
+				}
+			}
+		}
+		return true
+	})
 	// local function literals that mention the object or a view of it
 	lits := map[*ast.Object]bool{}
 	ast.Inspect(d.Body, func(x ast.Node) bool {
